@@ -413,7 +413,7 @@ SEEDED = [
     # round 3
     ("r3-C01-1", "C01", "PT1"), ("r3-C14-2", "C14", "PT1"),
     ("r3-C03-1", "C03", "SH3"), ("r3-C03-2", "C03", "INV"),
-    ("r3-C04-1", "C04", "SH1"),
+    ("r3-C04-1", "C04", "SH1"), ("r3-C04-2", "C04", "MEAN1"),
     ("r3-C05-1", "C05", "GO1"),
     ("r3-C06-1", "C06", "M4"), ("r3-C06-2", "C06", "FW1"),
     ("r3-C08-1", "C08", "CM1"), ("r3-C08-2", "C08", "PA1"),
